@@ -1103,6 +1103,14 @@ int main (void)
       /* a foreign party opens its own (real, loopback) TCP connection to <ip:port>, e.g. an agent's tcp-passive candidate */
       struct sockaddr_in sa; int fd, k;
       for (k = 0; k < 8 && foreign_tcp[k].fd > 0 && strcmp (foreign_tcp[k].name, w[1]); k++) ;
+      if (k < 8 && w[2][0] == '@' && (g = find_ag (w[2] + 1)) && g->alive) {
+        /* @<agent>: the agent's first tcp-passive host candidate (stream 1, component 1) */
+        GSList *cl = nice_agent_get_local_candidates (g->agent, 1, 1), *ci; static char tmp[80]; tmp[0] = 0;
+        for (ci = cl; ci; ci = ci->next) { NiceCandidate *c = ci->data;
+          if (!tmp[0] && c->transport == NICE_CANDIDATE_TRANSPORT_TCP_PASSIVE && c->type == NICE_CANDIDATE_TYPE_HOST) addr_str (&c->addr, tmp); }
+        g_slist_free_full (cl, (GDestroyNotify) nice_candidate_free);
+        if (tmp[0]) w[2] = tmp;
+      }
       if (k == 8 || !parse_ipport (w[2], &sa)) puts ("err bad tcpconn");
       else {
         if (foreign_tcp[k].fd > 0) close (foreign_tcp[k].fd);
@@ -1115,6 +1123,13 @@ int main (void)
             printf ("ok connected fd %d local %s:%u\n", fd, ip, ntohs (me.sin_port)); }
         } else { if (fd >= 0) close (fd); printf ("ok refused errno %d\n", errno); }
       }
+    }
+    else if (!strcmp (w[0], "tcpclose") && n == 2) {
+      int k;
+      for (k = 0; k < 8 && (foreign_tcp[k].fd <= 0 || strcmp (foreign_tcp[k].name, w[1])); k++) ;
+      if (k < 8) { close (foreign_tcp[k].fd); foreign_tcp[k].fd = 0; foreign_tcp[k].name[0] = 0; }
+      total_dispatches += iterate_ready ();
+      puts ("ok");
     }
     else if (!strcmp (w[0], "tcpsend") && n == 3) {
       int k; uint8_t *b; long l = parse_hex (w[2], &b); ssize_t r = -1;
